@@ -266,6 +266,11 @@ def diagOf (cplx : Bool) (n : Nat) : OpK α → Option (List α)
   | .diag d => some d
   | _ => none
 
+/-- cut a flat list into consecutive pieces of the given lengths (inverse of `flatten`) -/
+def splitLike {β : Type} : List β → List Nat → List (List β)
+  | _, [] => []
+  | l, n :: ns => l.take n :: splitLike (l.drop n) ns
+
 /-- `SquaredL2Loss.prox`, `isinstance(A, Diagonal)` branch:
       c = 2·scale·lam;  lhs = c·conj(A)·W·y + v;  ATWA = c·conj(A)·W·A;  return lhs / (ATWA + 1).
     `ATWA + 1` is real-valued (`conj(a) a = |a|²`); its real part is `c·w·|a|² + 1`. -/
@@ -318,11 +323,6 @@ def wNormalize (w : Option (List α)) (n : Nat) : Except Err (Option (List α)) 
 
 variable [HasSqrt α]
 
-/-- cut a flat list into consecutive pieces of the given lengths (inverse of `flatten`) -/
-def splitLike {β : Type} : List β → List Nat → List (List β)
-  | _, [] => []
-  | l, n :: ns => l.take n :: splitLike (l.drop n) ns
-
 /-- `A(x)` for the forward operator of a generic `Loss` (`none` = Identity) -/
 def Env.applyOpt (E : Env α) (A : Option Nat) (x : Arg α) : Arg α :=
   match A with
@@ -334,7 +334,11 @@ def OpK.apply (E : Env α) (A : OpK α) (x : Arg α) : Except Err (Arg α) :=
   match A, x with
   | .ident, x => .ok x
   | .diag d, .arr v => if (emul E.cplx d v).length = v.length then .ok (.arr (emul E.cplx d v)) else .error .shape
-  | .diag _, .blk _ => .error .shape
+  | .diag d, .blk bs =>
+    -- a `Diagonal` whose diagonal is a block array of the shape of `x` (`d` = its concatenation): entry by entry
+    if (emul E.cplx d bs.flatten).length = bs.flatten.length then
+      .ok (.blk (splitLike (emul E.cplx d bs.flatten) (bs.map List.length)))
+    else .error .shape
   | .lin i, x => .ok (E.opEval i x)
   | .nonlin i, x => .ok (E.opEval i x)
 
@@ -406,14 +410,13 @@ def prox (E : Env α) : Fn α → Arg α → α → Except Err (Arg α)
       | .blk vs, .blk ys =>
         -- block arrays: `A` is the default Identity on the block shape of `y`, `W.diagonal` a block array;
         -- the closed form acts entry by entry (a `Diagonal` with a block diagonal is not modelled)
-        match A with
-        | .ident =>
-          if vs.map List.length = ys.map List.length then
-            match diagOf E.cplx (nEntries E.cplx vs.flatten) (OpK.ident : OpK α) with
-            | some a => .ok (.blk (splitLike (sqL2DiagProx E.cplx s lam w a ys.flatten vs.flatten) (vs.map List.length)))
-            | none => .error .type
+        match diagOf E.cplx (nEntries E.cplx vs.flatten) A with
+        | some a =>
+          -- Identity on the block shape, or a `Diagonal` with a block-array diagonal (`a` = its concatenation)
+          if vs.map List.length = ys.map List.length ∧ a.length = vs.flatten.length then
+            .ok (.blk (splitLike (sqL2DiagProx E.cplx s lam w a ys.flatten vs.flatten) (vs.map List.length)))
           else .error .shape
-        | _ => .error .shape
+        | none => .error .shape
       | _, _ => .error .shape
 
 /-- `Functional.conj_prox`: `v - lam * self.prox(v / lam, 1.0 / lam)` -/
